@@ -7,7 +7,7 @@ import random
 from multiprocessing import Pool
 
 from . import toy
-from .core import NCPU
+from .core import NCPU, limited
 from .fields import bits
 
 BN_MC = (82, 0, 0, 0, 0, 0, -18, 0, 0, 0, 0, 0)
@@ -115,7 +115,7 @@ def twist_module(mname, f2name, f12name):
 
 def _safe(fn):
     try:
-        return fn()
+        return limited(fn, 120)
     except RecursionError:
         return "EXC:RecursionError"
     except Exception as e:  # noqa: BLE001
